@@ -297,6 +297,18 @@ def fmt_shape(levels):
     return " < ".join("[" + " ".join(one(e) for e in lvl) + "]" for lvl in levels)
 
 
+_FMT_BY_INDEX = {}
+
+
+def case_format(c):
+    """the ArgsFormat of a C01/C02 case (cached)"""
+    if "lv" in c:
+        return mk_format(c["lv"])
+    if c["f"] not in _FMT_BY_INDEX:
+        _FMT_BY_INDEX[c["f"]] = mk_format(SMALL_FORMATS[c["f"]])
+    return _FMT_BY_INDEX[c["f"]]
+
+
 def case_levels(c):
     """the format description of a C01/C02 case: carried by the case ("lv") or an index into SMALL_FORMATS ("f")"""
     return c["lv"] if "lv" in c else SMALL_FORMATS[c["f"]]
